@@ -32,12 +32,16 @@ READERS = {"keys", "pluck"}
 EDITORS = {"modify", "modify_if", "fill", "fill_all", "unselect", "select", "rename", "inner", "left"}
 
 
-def nest(d):
-    """Concretisation with containers: a non-missing value v of key b is held as {"n": [v]} (a dict holding a list)."""
-    return {k: ({"n": [v]} if k == "b" and v is not None else v) for k, v in d.items()}
+def nest(d, how=True):
+    """Concretisation with containers: a non-missing value v of key b is held as {"n": [v]} (a dict holding a list),
+    or - how == "tuple" - as ({"n": [v]},): an immutable tuple that holds a mutable object."""
+    wrap = (lambda v: ({"n": [v]},)) if how == "tuple" else (lambda v: {"n": [v]})
+    return {k: (wrap(v) if k == "b" and v is not None else v) for k, v in d.items()}
 
 
 def unnest(v):
+    if isinstance(v, tuple) and len(v) == 1:
+        v = v[0]
     return v["n"][0] if isinstance(v, dict) and list(v) == ["n"] else v
 
 
@@ -53,15 +57,18 @@ def do_call(lists, e, nested=False):
         # the user's own assignment into one dict (or into the container it holds); the list object is not used
         item = list.__getitem__(x, a["i"])
         v = None if a["v"] == -1 else a["v"]
-        if isinstance(item.get("b"), dict) and v is not None:
-            item["b"]["n"][0] = v
+        cur = item.get("b")
+        if isinstance(cur, tuple) and len(cur) == 1:
+            cur = cur[0]
+        if isinstance(cur, dict) and v is not None:
+            cur["n"][0] = v
         else:
             item["b"] = v
         return None
     if nested and op == "append":
-        return x.append(nest(to_py(a["item"])))
+        return x.append(nest(to_py(a["item"]), nested))
     if nested and op == "insert":
-        return x.insert(a["i"], nest(to_py(a["item"])))
+        return x.insert(a["i"], nest(to_py(a["item"]), nested))
     if op == "deepcopy":
         return x.deepcopy()
     if op == "keys":
@@ -88,7 +95,7 @@ class Session:
         self.ids = {}
         self.keep = []
         self.nested = nested
-        self.lists = [di.ListOfDicts([(nest(to_py(x)) if nested else to_py(x)) for x in init_items])]
+        self.lists = [di.ListOfDicts([(nest(to_py(x), nested) if nested else to_py(x)) for x in init_items])]
         self.note(self.lists[0])
 
     def note(self, lst):
@@ -131,7 +138,7 @@ def has_key_everywhere(lst, k):
 def random_trace(rng, nsteps):
     init = [{"a": rng.choice([-1, 0, 1]), **({"b": rng.choice([-1, 0, 1])} if rng.random() < 0.8 else {})}
             for _ in range(rng.randint(0, 3))]
-    nested = rng.random() < 0.4
+    nested = rng.choice([False, False, False, True, True, "tuple"])
     s = Session(init, nested)
     tr = {"init": {"items": [to_abs_nested(x) for x in s.keep], "lists": [[s.ids[id(it)] for it in list.__iter__(s.lists[0])]]},
           "nested": nested, "steps": []}
@@ -172,9 +179,10 @@ def deepcopy_trace(rng):
     Items are heterogeneous: some hold only scalars, later ones hold a container."""
     init = [{"a": rng.choice([-1, 0, 1]), **({"b": rng.choice([-1, -1, 0, 1])} if rng.random() < 0.8 else {})}
             for _ in range(rng.randint(1, 4))]
-    s = Session(init, nested=True)
+    nested = rng.choice([True, "tuple"])
+    s = Session(init, nested=nested)
     tr = {"init": {"items": [to_abs_nested(x) for x in s.keep], "lists": [[s.ids[id(it)] for it in list.__iter__(s.lists[0])]]},
-          "nested": True, "steps": []}
+          "nested": nested, "steps": []}
 
     def do(e):
         e["obs"] = s.step(e)
